@@ -291,7 +291,13 @@ fn generations(ctx: &mut Ctx) {
     }
     let mut current: Vec<Obs> = (0..nsrc).map(|i| Obs::fresh(&format!("src{i}"))).collect();
     // generation 0: default regions accept everything
-    let heavy = rng.range(0, pool.len() - 1);
+    // ties in the ranking are broken by key order somewhere down the line: put the heavy string at
+    // either end of that order as well as at random positions
+    let heavy = match (shape, h % 3) {
+        (4, 0) => pool.len() - 1,
+        (4, 1) => 0,
+        _ => rng.range(0, pool.len() - 1),
+    };
     ctx.cover(&format!("pool-shape:{shape}"));
     for (i, o) in current.iter_mut().enumerate() {
         if h % 7 == 0 && i == 0 {
@@ -359,6 +365,7 @@ fn generations(ctx: &mut Ctx) {
         let Some(mut m) = Obs::merged(ctx, &format!("gen{g}"), &refs) else { break };
         let Some(mut hostile) = Obs::merged(ctx, &format!("gen{g}-hostile"), &refs) else { break };
         let one_byte = m.must_be_one_byte(ctx);
+        ctx.log(format!("model: {} strings must cost one byte in gen{g} (pool shape {shape}, {} sources, heavy string {:?})", one_byte.len(), nsrc, String::from_utf8_lossy(&pool[heavy])));
         // covered pushes into m: everything the sources absorbed must be accepted
         let mut covered: Vec<Vec<u8>> = refs.iter().flat_map(|o| o.absorbed.strings.keys().cloned()).collect();
         covered.push(Vec::new());
